@@ -37,6 +37,7 @@ class Ctx(object):
         self.floors = {}
         self.notes = []
         self.stats = {}
+        self.undecided_list = []
 
     def _where(self, fi, node):
         file = fi.file if fi is not None else "?"
@@ -60,6 +61,14 @@ class Ctx(object):
             self.bad(rule, site, fi, node, badmsg, path)
         return cond
 
+    def undecided(self, rule, site, fi, node, why):
+        """the construct the rule needs is not present in a form the rule understands (e.g. after a restructuring):
+        no verdict.  Recorded in the evidence; never an alarm."""
+        file, line = self._where(fi, node)
+        inst = Instance(rule, site, file, line, True, "UNDECIDED: " + why, None, False)
+        self.instances.append(inst)
+        self.undecided_list.append({"rule": rule, "site": site, "why": why})
+
     def floor(self, rule, n):
         """the rule must have evaluated at least n instances (confirmed by hand on the reference tree)"""
         self.floors[rule] = max(n, self.floors.get(rule, 0))
@@ -74,7 +83,7 @@ class Ctx(object):
         counts = {}
         for i in self.instances:
             counts[i.rule] = counts.get(i.rule, 0) + 1
-        bad_rules = {i.rule for i in self.instances if not i.ok}
+        bad_rules = {i.rule for i in self.instances if not i.ok} | {u["rule"] for u in self.undecided_list}
         for rule, n in self.floors.items():
             if rule in bad_rules:
                 continue   # a violated rule may stop early; the violation is the verdict
@@ -156,7 +165,7 @@ def finish(prop_id, ctx, tier, seed, t0, explanation, assumptions, extra=None, s
                 "distinct = distinct (rule, site) pairs" % ctx.p.root,
         "samples": samples,
         "obligations": len(ctx.instances),
-        "discharged": sum(1 for i in ctx.instances if i.ok),
+        "discharged": sum(1 for i in ctx.instances if i.ok) - len(ctx.undecided_list),
         "instances_per_rule": counts,
         "floors": ctx.floors,
         "modules": sorted(ctx.p.modules),
@@ -164,6 +173,7 @@ def finish(prop_id, ctx, tier, seed, t0, explanation, assumptions, extra=None, s
         "source_digest": ctx.p.digest,
         "findings": {"new": len(new), "known": len(kn), "fixed_entries": len(fixed)},
         "notes": ctx.notes[:60],
+        "undecided": ctx.undecided_list,
         "stats": ctx.stats,
         "exhaustive": False,
     }
@@ -186,7 +196,9 @@ def finish(prop_id, ctx, tier, seed, t0, explanation, assumptions, extra=None, s
     with open(os.path.join(evdir, prop_id + ".json"), "w") as f:
         json.dump(ev, f, indent=1, sort_keys=True, default=str)
         f.write("\n")
-    print("%s %s: %d rule instances over %d rules, %d discharged, %d known finding(s), %d violation(s) [%s, %.2fs]" % (
+    for u in ctx.undecided_list:
+        print("UNDECIDED: property=%s rule=%s site=%s %s" % (prop_id, u["rule"], u["site"], u["why"]))
+    print("%s %s: %d rule instances over %d rules, %d discharged, %d known finding(s), %d violation(s), %d undecided [%s, %.2fs]" % (
         prop_id, tier, len(ctx.instances), len(counts), cov["discharged"], len(kn), len(new),
-        ctx.p.root, time.time() - t0))
+        len(ctx.undecided_list), ctx.p.root, time.time() - t0))
     return 1 if new else 0
